@@ -326,12 +326,9 @@ impl PScenario {
             n = rng.range(3, 64);
         }
         // rarely: a long input (up to 10^6 in thorough), where chunk sizes pass 2^16
-        let long = rng.below(2500) == 0;
+        let long = rng.below(1500) == 0;
         if long {
-            let hi: f64 = match tier {
-                Tier::Quick => 400_000.0,
-                Tier::Thorough => 1_000_000.0,
-            };
+            let hi: f64 = 1_000_000.0;
             n = (10_000.0 * (hi / 10_000.0).powf(rng.f())) as usize;
             st.bump("probe.long_input_ge_10k");
         }
@@ -342,7 +339,11 @@ impl PScenario {
             cfg.policy = Policy::Length;
         }
         if long {
-            cfg.policy = if rng.chance(0.7) { Policy::Length } else { Policy::Balanced };
+            cfg.policy = match rng.below(10) {
+                0..=5 => Policy::Length,
+                6..=7 => Policy::Balanced,
+                _ => Policy::Lopsided,
+            };
             cfg.threads = rng.pick(&[1usize, 2, 3, 4, 8]);
             cfg.min_len = if rng.chance(0.5) { 1 } else { rng.range(1000, 70_000) };
             cfg.max_pieces = 1;
